@@ -128,6 +128,8 @@ def search(ctx):
             names = [x for x in (c05_names_f if fock else c05_names_g)]
             mode = rng.choice(["any", "passive", "unitary", "loss"])
             pool = {"any": names, "passive": PASSIVE, "unitary": UNITARY, "loss": ["LossChannel"]}[mode]
+            if backend == "gaussian" and mode in ("any", "loss"):
+                pool = pool + ["PassiveChannel"]  # a contraction T: physical output, never more photons
             tail = [bc.weak_cmd(rng, n, pool) for _ in range(rng.randint(1, 3))]
             if mode == "any" and not fock and n >= 2 and rng.random() < 0.5:
                 # a post-selected measurement of a mode that is correlated with the others: the conditional state must be physical
